@@ -3,7 +3,13 @@
 import Refine.Scalar
 import Refine.Gen.CellTables
 import Refine.Gen.PartMacros
+import Refine.Gen.MeshbKeywords
+import Refine.Gen.PyrPerm
+import Refine.Gen.MetricOrder
+import Refine.Gen.CodecConsts
 import Refine.Model.CellTopo
 import Refine.Model.Geom
+import Refine.Model.Meshb
+import Refine.Model.Solb
 import Refine.Lemmas.ScalarReal
 import Refine.Props.C15
